@@ -520,3 +520,484 @@ def _coq_util(inp):
 
 
 Op("util", _gen_util, _impl_util, _coq_util)
+
+
+# ---------------------------------------------------------------------------------------------- tokeniser
+from scoda.tokenisation.notelike_tokenisation import MultiTrackLargeVocabularyNotelikeTokeniser as Tokeniser
+import math
+
+TOK_SIGS = [(4, 4), (3, 4), (2, 4), (6, 8), (5, 8), (2, 2), (12, 8), (3, 16), (7, 8), (9, 16), (8, 8), (2, 8)]
+
+
+def gen_cfg(r, small=True, valid_bins=False):
+    nt = r.choice([1, 1, 2, 3, 4])
+    pr = r.choice([(60, 64), (58, 66), (60, 61), (21, 108)] if not small else [(60, 64), (58, 66), (60, 61), (60, 72)])
+    steps = r.choice([None, None, None, [12, 24], [6, 12, 24], [2, 4, 8, 16], [3, 6, 12, 24, 48], [24]])
+    values = r.choice([None, None, None, [12, 24], [6, 12, 24, 48], [4, 8, 16], [24]])
+    nb = r.choice([1, 1, 2, 3, 4, 5, 8, 8, 16, 127] + ([] if valid_bins else [100, 128, 60]))
+    flags = tuple(r.random() < 0.5 for _ in range(5))   # running, fuse_track, fuse_value, fuse_velocity, simplify
+    size = (nt if flags[1] else 1) * (pr[1] - pr[0] + 1) * ((len(values) if values else 9) if flags[2] else 1) * \
+        (nb if flags[3] else 1)
+    if size > 2500:      # keep one vocabulary small enough to be rendered inside Coq in about a second
+        return gen_cfg(r, small, valid_bins)
+    return (nt, pr[0], pr[1], steps, values, nb) + flags
+
+
+def mk_tok(cfg):
+    nt, lo, hi, steps, values, nb, run, ft, fv, fw, simp = cfg
+    return Tokeniser(num_tracks=nt, pitch_range=(lo, hi), step_sizes=list(steps) if steps else None,
+                     note_values=list(values) if values else None, velocity_bins=nb, flag_running_values=run,
+                     flag_fuse_track=ft, flag_fuse_value=fv, flag_fuse_velocity=fw, flag_simplify_time_signature=simp)
+
+
+def lit_cfg(cfg):
+    nt, lo, hi, steps, values, nb, run, ft, fv, fw, simp = cfg
+    o = lambda l: f"(Some {lit_zs(l)})" if l else "None"
+    return (f"(make_cfg {nt} {lo} {hi} {o(steps)} {o(values)} {nb} {lit_bool(run)} {lit_bool(ft)} {lit_bool(fv)} "
+            f"{lit_bool(fw)} {lit_bool(simp)})")
+
+
+def _impl_vocab(cfg):
+    t = mk_tok(cfg)
+    n = t.dictionary_size
+    return f"{n}#" + " ".join(t.inverse_dictionary.get(i, "?") for i in range(n))
+
+
+Op("vocab", lambda r: gen_cfg(r), _impl_vocab, lambda cfg: f"show_vocab {lit_cfg(cfg)}")
+
+
+def cfg_steps(cfg):
+    return sorted(cfg[3]) if cfg[3] else [2, 3, 4, 6, 8, 12, 16, 24]
+
+
+def cfg_values(cfg):
+    return sorted(cfg[4]) if cfg[4] else [4, 6, 8, 9, 12, 16, 18, 24, 36]
+
+
+def gen_piece(r, cfg, valid=True, nbars=None):
+    """tracks as relative lists + the bar grid; valid pieces satisfy the tokeniser's input constraints"""
+    nt, lo, hi = cfg[0], cfg[1], cfg[2]
+    steps, values = cfg_steps(cfg), cfg_values(cfg)
+    unit = steps[0] if all(s % steps[0] == 0 for s in steps) else math.gcd(*steps)
+    if not cfg[3]:
+        unit = 2
+    nbars = r.randint(0, 4) if nbars is None else nbars
+    sig, t, metas, bounds = (4, 4), 0, [], []
+    for b in range(nbars):
+        if r.random() < (0.5 if b == 0 else 0.3):
+            cands = [s for s in TOK_SIGS if (96 * s[0] // s[1]) % unit == 0] or [(4, 4)]
+            sig = r.choice(cands)
+            metas.append(TS(0, sig[0], sig[1], t))
+        bounds.append(t)
+        t += 96 * sig[0] // sig[1]
+    total = t
+    tracks = []
+    for i in range(nt):
+        notes, busy = [], {}
+        n = r.randint(0, 6) if total else 0
+        for _ in range(n):
+            p = r.randint(lo, min(hi, lo + 3))
+            on = r.randrange(0, total, unit) if valid or r.random() < 0.8 else r.randrange(0, total)
+            d = r.choice(values) if valid or r.random() < 0.8 else r.choice([5, 7, 1])
+            if not valid and r.random() < 0.1:
+                p = hi + 1
+            if any(on < e and s < on + d for s, e in busy.get(p, [])) or any(on == s for s, e in busy.get(p, [])):
+                continue
+            busy.setdefault(p, []).append((on, on + d))
+            notes.append((i, p, on, d, r.choice(G.VELS)))
+        ms = []
+        for c, p, on, d, v in notes:
+            ms += [ON(c, p, v, on), OFF(c, p, on + d)]
+        if i == 0:
+            ms += metas
+        rel = G.abs_to_rel(ms)
+        dur = sum(m[2] for m in rel if m[0] == "WAIT")
+        mode = r.random()
+        if mode < 0.5 and dur < total:
+            rel.append(WT(i, total - dur))          # bar-shaped: capped at the end of the last bar
+        elif mode < 0.6 and dur + unit <= total:
+            rel.append(WT(i, r.randrange(unit, total - dur + 1, unit)))
+        tracks.append(rel)
+    return tracks
+
+
+def show_state(d):
+    ks = ["cur_time", "cur_time_bar", "cur_time_signature_numerator", "cur_time_signature_denominator",
+          "cur_bar_capacity_remaining", "prv_track", "prv_value", "prv_velocity"]
+    return ",".join(str(d[k]) for k in ks)
+
+
+def _impl_roundtrip_tok(inp):
+    cfg, tracks = inp
+    t = mk_tok(cfg)
+    seqs = [mk_rel(ms) for ms in tracks]
+    sd = {}
+    toks = t.tokenise(seqs, state_dict=sd)
+    out = " ".join(toks) + "#" + show_state(sd) + "#"
+    try:
+        ids = t.encode(toks)
+    except Exception as e:
+        return out + show_exc(e)
+    out += ",".join(map(str, ids)) + "#"
+    try:
+        back = t.decode(ids)
+    except Exception as e:
+        return out + show_exc(e)
+    try:
+        res = t.detokenise(back)
+    except Exception as e:
+        return out + show_exc(e)
+    return out + show_msgss([stored_abs(s) for s in res])
+
+
+def _gen_rt(r):
+    cfg = gen_cfg(r)
+    return cfg, gen_piece(r, cfg, valid=r.random() < 0.8)
+
+
+Op("tok_roundtrip", _gen_rt, _impl_roundtrip_tok, lambda inp: f"roundtrip {lit_cfg(inp[0])} {lit_msgss(inp[1])}",
+   lambda inp: sum(len(t) for t in inp[1]) > 4)
+
+
+def partition(r, n):
+    cuts, k = [], 0
+    while k < n:
+        step = r.choice([1, 1, 2, 3])
+        cuts.append((k, min(n, k + step)))
+        k += step
+    return cuts
+
+
+def _gen_stateful(r):
+    cfg = gen_cfg(r, valid_bins=True)
+    tracks = gen_piece(r, cfg, valid=True, nbars=r.randint(1, 5))
+    seed = r.randrange(1 << 30)
+    return cfg, tracks, seed
+
+
+def _bars_of(tracks):
+    ss = [mk_rel(ms) for ms in tracks]
+    return Sequence.sequences_split_bars(ss, meta_track_index=0)
+
+
+def _impl_stateful(inp):
+    cfg, tracks, seed = inp
+    t = mk_tok(cfg)
+    bars = _bars_of(tracks)
+    nb = len(bars[0])
+    groups = partition(random.Random(seed), nb)
+    sd, out = {}, ""
+    for a, b in groups:
+        seqs = [Bar.to_sequence(tb[a:b]) for tb in bars]
+        try:
+            toks = t.tokenise(seqs, state_dict=sd)
+        except Exception as e:
+            return out + show_exc(e)
+        out += " ".join(toks) + "#" + show_state(sd) + "$"
+    return out
+
+
+def _coq_stateful(inp):
+    cfg, tracks, seed = inp
+    # the grouping is decided by the number of bars, which the model computes itself; the harness passes the cuts
+    bars = _bars_of(tracks)
+    nb = len(bars[0])
+    groups = partition(random.Random(seed), nb)
+    cuts = "[" + "; ".join(f"({a}%nat, {b}%nat)" for a, b in groups) + "]"
+    return (f"(match split_bars {lit_msgss(tracks)} (to_abs {lit_msgs(tracks[0])}) true with "
+            f"| Err e => \"!\" ++ show_err e "
+            f"| Ok bars => tokenise_calls {lit_cfg(cfg)} (tstate0 {lit_cfg(cfg)}) "
+            f"(map (fun ab : nat * nat => map (fun tb : list bar => concat (map b_rel (firstn (snd ab - fst ab) (skipn (fst ab) tb)))) bars) {cuts}) end)")
+
+
+Op("tok_stateful", _gen_stateful, _impl_stateful, _coq_stateful)
+
+
+def _gen_stream(r):
+    cfg = gen_cfg(r, valid_bins=True)
+    t = mk_tok(cfg)
+    keys = list(t.dictionary.keys())
+    notes = [k for k in keys if "pit" in k]
+    rests = [k for k in keys if k.startswith("rst")]
+    others = [k for k in keys if "pit" not in k and not k.startswith("rst")]
+    n = r.randint(0, 14)
+    toks = []
+    for _ in range(n):
+        x = r.random()
+        toks.append(r.choice(notes) if x < 0.4 else r.choice(rests) if x < 0.65 else r.choice(others))
+    return cfg, toks
+
+
+def _show_info(d):
+    def ann(p, c):
+        if isinstance(p, float) and math.isnan(p):
+            return "n"
+        return f"{p}/{c}"
+    return (",".join(map(str, d["info_position"])) + "#" + ",".join(map(str, d["info_time"])) + "#" +
+            ",".join(map(str, d["info_time_bar"])) + "#" +
+            ",".join(ann(p, c) for p, c in zip(d["info_pitch"], d["info_circle_of_fifths"])))
+
+
+def _impl_stream(inp):
+    cfg, toks = inp
+    t = mk_tok(cfg)
+    try:
+        res = show_msgss([stored_abs(s) for s in t.detokenise(list(toks))])
+    except Exception as e:
+        res = show_exc(e)
+    return res + "#" + _show_info(t.get_info(list(toks))) + "#" + _show_info(t.get_info(list(toks), flag_impute_values=True))
+
+
+Op("tok_stream", _gen_stream, _impl_stream,
+   lambda inp: f"detok_strings {lit_cfg(inp[0])} [" + "; ".join(lit_str(s) for s in inp[1]) + "]",
+   lambda inp: len(inp[1]) > 2)
+
+
+# ---------------------------------------------------------------------------------------------- histories (Store.v)
+FIELDS = {"FTime": "time", "FChan": "channel", "FNote": "note", "FVel": "velocity", "FNum": "numerator", "FDen": "denominator"}
+
+
+def gen_history(r, nsteps=None, two_sided=False):
+    """a list of operations over a growing store of Sequence objects; returns the op list (python tuples)"""
+    nsteps = nsteps or r.randint(1, 12)
+    ops, n = [], 0
+    kinds = [None]  # kinds[i]: 'seq' | 'bar:(num,den)'
+    kinds = []
+
+    def new():
+        nonlocal n
+        x = r.random()
+        if x < 0.45:
+            ops.append(("ONewAbs", G.gen_abs_wf(r, n=r.randint(0, 4), pitches=[60, 61, 62], hi=r.choice([40, 100]), extra=False)))
+        elif x < 0.9:
+            ops.append(("ONewRel", G.gen_rel_wf(r, n=r.randint(0, 4), pitches=[60, 61, 62], hi=r.choice([40, 100]), extra=False)))
+        else:
+            ops.append(("ONew",))
+        n += 1
+
+    new()
+    if two_sided or r.random() < 0.3:
+        new()
+    for _ in range(nsteps):
+        i = r.randrange(n)
+        k = r.choice(["OAddAbs", "OAddRel", "OConcat", "OConcatLit", "OMerge", "OCutoff", "ONormalise", "OPad",
+                      "OSetChannel", "OOverwriteAbs", "OOverwriteRel", "OSplit", "OScale", "OTranspose", "OQuantise",
+                      "OQnl", "OQuantNorm", "ORefresh", "OReadAbs", "OReadRel", "OEquals", "OPairings", "ODuration",
+                      "OEditAbs", "OEditRel", "OCopy", "OCopy", "OBarInit", "OBarCopy", "OSplitBars", "new",
+                      "OReadAbs", "OReadRel", "ONormalise", "OTranspose"])
+        if k == "new":
+            new()
+        elif k == "OCopy":
+            ops.append((k, i))
+        elif k == "OAddAbs":
+            m = r.choice([ON(r.choice([0, 1]), r.choice([60, 61]), 90, G.tick(r)), OFF(r.choice([0, 1]), r.choice([60, 61]), G.tick(r)),
+                          TS(0, *r.choice(G.SIGS), G.tick(r)), KS(0, r.choice(G.KEYS), G.tick(r))])
+            ops.append((k, i, m))
+        elif k == "OAddRel":
+            m = r.choice([ON(r.choice([0, 1]), r.choice([60, 61]), 90), OFF(r.choice([0, 1]), r.choice([60, 61])),
+                          WT(0, r.choice([1, 6, 12, 24])), TS(0, *r.choice(G.SIGS)), KS(0, r.choice(G.KEYS))])
+            ops.append((k, i, m, r.choice([None, None, 0, 1, 2, -1, 5])))
+        elif k in ("OConcat", "OMerge"):
+            js = [j for j in (r.randrange(n) for _ in range(r.choice([1, 1, 2]))) if j != i]
+            ops.append((k, i, js))
+        elif k == "OConcatLit":
+            ops.append((k, i, [G.gen_rel_wf(r, n=r.randint(0, 2), pitches=[60, 61], hi=30, extra=False) for _ in range(r.choice([1, 2]))]))
+        elif k == "OCutoff":
+            m = r.choice([6, 12, 24, 11])
+            ops.append((k, i, m, r.choice([m, 1, max(1, m // 2)])))
+        elif k in ("ONormalise", "ORefresh", "OReadAbs", "OReadRel", "OPairings", "ODuration"):
+            ops.append((k, i))
+        elif k == "OPad":
+            ops.append((k, i, r.choice([0, 12, 48, 96, 100, 200])))
+        elif k == "OSetChannel":
+            ops.append((k, i, r.choice([0, 1, 2, 3])))
+        elif k == "OOverwriteAbs":
+            ops.append((k, i, G.gen_abs_wf(r, n=r.randint(0, 3), pitches=[60, 61], hi=40, extra=False)))
+        elif k == "OOverwriteRel":
+            ops.append((k, i, G.gen_rel_wf(r, n=r.randint(0, 3), pitches=[60, 61], hi=40, extra=False)))
+        elif k == "OSplit":
+            caps = G.gen_caps(r)
+            ops.append((k, i, caps)); 
+            # number of pieces is not known here: the executor appends as many kinds as pieces
+        elif k == "OScale":
+            ops.append((k, i, r.randint(1, 4)))
+        elif k == "OTranspose":
+            ops.append((k, i, r.choice([0, 1, -1, 2, 12, -12, 7, 50, -50, 13])))
+        elif k == "OQuantise":
+            ops.append((k, i, r.choice(G.STEP_POOLS)))
+        elif k == "OQnl":
+            ops.append((k, i, r.choice(G.VALUE_POOLS), r.choice([24, 12]), r.random() < 0.5))
+        elif k == "OQuantNorm":
+            ops.append((k, i, r.choice(G.STEP_POOLS), r.choice(G.VALUE_POOLS)))
+        elif k == "OEquals":
+            ops.append((k, i, r.randrange(n)) + tuple(r.random() < 0.3 for _ in range(4)))
+        elif k in ("OEditAbs", "OEditRel"):
+            es = []
+            for _ in range(r.choice([1, 1, 2, 3])):
+                f = r.choice(["FTime", "FChan", "FNote", "FVel"] if k == "OEditAbs" else ["FTime", "FChan", "FNote", "FVel"])
+                v = {"FTime": r.choice([0, 6, 12, 13, 30, 50]), "FChan": r.choice([0, 1, 2]), "FNote": r.choice([60, 61, 62]),
+                     "FVel": r.choice([1, 64, 127])}[f]
+                es.append((r.randrange(8), f, v))
+            ops.append((k, i, es))
+        elif k in ("OBarInit", "OBarCopy"):
+            ops.append((k, i) + r.choice([(4, 4), (4, 4), (3, 4), (6, 8), (2, 2)]))
+            if k == "OBarCopy":
+                pass
+        elif k == "OSplitBars":
+            is_ = list(dict.fromkeys(r.randrange(n) for _ in range(r.choice([1, 1, 2]))))
+            ops.append((k, is_, r.randrange(len(is_)), r.random() < 0.5))
+        # the executor tells how many objects an op appended; the generator must know n: recompute by dry run
+        n = _dry_count(ops)
+    return ops
+
+
+def _exec(ops, upto=None, trace=True, return_store=False):
+    """run ops on real objects; returns the trace string (output@store after every step)"""
+    store, tr = [], []
+    for o in ops:
+        k = o[0]
+        out = "-"
+        try:
+            if k == "ONew":
+                store.append(Sequence())
+            elif k == "ONewAbs":
+                store.append(mk_abs(o[1]))
+            elif k == "ONewRel":
+                store.append(mk_rel(o[1]))
+            elif k == "OCopy":
+                store.append(store[o[1]].copy())
+            elif k == "OAddAbs":
+                store[o[1]].add_absolute_message(to_message(o[2]))
+            elif k == "OAddRel":
+                store[o[1]].add_relative_message(to_message(o[2], rel=True), index=o[3])
+            elif k == "OConcat":
+                store[o[1]].concatenate([store[j].copy() for j in o[2]])
+            elif k == "OConcatLit":
+                store[o[1]].concatenate([mk_rel(ms) for ms in o[2]])
+            elif k == "OMerge":
+                store[o[1]].merge([store[j] for j in o[2]])
+            elif k == "OCutoff":
+                store[o[1]].cutoff(o[2], o[3])
+            elif k == "ONormalise":
+                store[o[1]].normalise()
+            elif k == "OPad":
+                store[o[1]].pad(o[2])
+            elif k == "OSetChannel":
+                store[o[1]].set_channel(o[2])
+            elif k == "OOverwriteAbs":
+                store[o[1]].overwrite_absolute_messages([to_message(m) for m in o[2]])
+            elif k == "OOverwriteRel":
+                store[o[1]].overwrite_relative_messages([to_message(m, rel=True) for m in o[2]])
+            elif k == "OSplit":
+                ps = store[o[1]].split(list(o[2]))
+                store.extend(ps)
+                out = str(len(ps))
+            elif k == "OScale":
+                store[o[1]].scale(o[2], quantise_afterwards=False)
+            elif k == "OTranspose":
+                out = "T" if store[o[1]].transpose(o[2]) else "F"
+            elif k == "OQuantise":
+                store[o[1]].quantise(list(o[2]))
+            elif k == "OQnl":
+                store[o[1]].quantise_note_lengths(list(o[2]), standard_length=o[3], do_not_extend=o[4])
+            elif k == "OQuantNorm":
+                store[o[1]].quantise_and_normalise(list(o[2]), list(o[3]))
+            elif k == "ORefresh":
+                store[o[1]].refresh()
+            elif k == "OReadAbs":
+                out = "[" + show_msgs([from_message(m) for m in store[o[1]].abs._messages]) + "]"
+            elif k == "OReadRel":
+                out = "[" + show_msgs([from_message(m, rel=True) for m in store[o[1]].rel._messages]) + "]"
+            elif k == "OEquals":
+                out = "T" if store[o[1]].equals(store[o[2]], *o[3:7]) else "F"
+            elif k == "OPairings":
+                store[o[1]].get_message_pairings()
+            elif k == "ODuration":
+                out = str(store[o[1]].get_sequence_duration())
+            elif k == "OEditAbs":
+                for idx, m in enumerate(store[o[1]].messages_abs()):
+                    for (j, f, v) in o[2]:
+                        if j == idx:
+                            setattr(m, FIELDS[f], v)
+            elif k == "OEditRel":
+                for idx, m in enumerate(store[o[1]].messages_rel()):
+                    for (j, f, v) in o[2]:
+                        if j == idx and not (f == "FTime" and m.message_type != MT.WAIT):
+                            setattr(m, FIELDS[f], v)
+            elif k == "OBarInit":
+                Bar(store[o[1]], o[2], o[3])
+            elif k == "OBarCopy":
+                b = Bar.__new__(Bar)      # a bar whose sequence is object i: copy() = Bar(seq.copy(), num, den, key)
+                b.sequence, b.time_signature_numerator, b.time_signature_denominator, b.key_signature = store[o[1]], o[2], o[3], None
+                store.append(b.copy().sequence)
+            elif k == "OSplitBars":
+                for j in [o[1][o[2]]] + list(o[1]):
+                    store[j].refresh()
+                bars = Sequence.sequences_split_bars([store[j] for j in o[1]], meta_track_index=o[2], quantise_note_lengths=o[3])
+                for t in bars:
+                    store.extend(b.sequence for b in t)
+                out = "|".join(",".join(show_sig(b.time_signature_numerator, b.time_signature_denominator, b.key_signature) for b in t) for t in bars)
+            else:
+                raise AssertionError(k)
+        except AssertionError:
+            raise
+        except Exception as e:
+            out = show_exc(e)
+        tr.append(out + "@" + "#".join(show_seq(s) for s in store))
+    if return_store:
+        return store, tr
+    return "$".join(tr)
+
+
+def _dry_count(ops):
+    store, _ = _exec(ops, return_store=True)
+    return len(store)
+
+
+def lit_op(o):
+    k = o[0]
+    nat = lambda i: f"{i}%nat"
+    nats = lambda l: "[" + "; ".join(nat(i) for i in l) + "]"
+    if k == "ONew":
+        return "ONew"
+    if k in ("ONewAbs", "ONewRel"):
+        return f"{k} {lit_msgs(o[1])}"
+    if k in ("OCopy", "ONormalise", "ORefresh", "OReadAbs", "OReadRel", "OPairings", "ODuration"):
+        return f"{k} {nat(o[1])}"
+    if k == "OAddAbs":
+        return f"OAddAbs {nat(o[1])} ({lit_msg(o[2])})"
+    if k == "OAddRel":
+        return f"OAddRel {nat(o[1])} ({lit_msg(o[2])}) " + ("None" if o[3] is None else f"(Some {z(o[3])})")
+    if k in ("OConcat", "OMerge"):
+        return f"{k} {nat(o[1])} {nats(o[2])}"
+    if k == "OConcatLit":
+        return f"OConcatLit {nat(o[1])} {lit_msgss(o[2])}"
+    if k == "OCutoff":
+        return f"OCutoff {nat(o[1])} {z(o[2])} {z(o[3])}"
+    if k in ("OPad", "OSetChannel", "OScale", "OTranspose"):
+        return f"{k} {nat(o[1])} {z(o[2])}"
+    if k in ("OOverwriteAbs", "OOverwriteRel"):
+        return f"{k} {nat(o[1])} {lit_msgs(o[2])}"
+    if k in ("OSplit", "OQuantise"):
+        return f"{k} {nat(o[1])} {lit_zs(o[2])}"
+    if k == "OQnl":
+        return f"OQnl {nat(o[1])} {lit_zs(o[2])} {z(o[3])} {lit_bool(o[4])}"
+    if k == "OQuantNorm":
+        return f"OQuantNorm {nat(o[1])} {lit_zs(o[2])} {lit_zs(o[3])}"
+    if k == "OEquals":
+        return f"OEquals {nat(o[1])} {nat(o[2])} " + " ".join(lit_bool(b) for b in o[3:7])
+    if k in ("OEditAbs", "OEditRel"):
+        return f"{k} {nat(o[1])} [" + "; ".join(f"({nat(j)}, {f}, {z(v)})" for j, f, v in o[2]) + "]"
+    if k in ("OBarInit", "OBarCopy"):
+        return f"{k} {nat(o[1])} {z(o[2])} {z(o[3])}"
+    if k == "OSplitBars":
+        return f"OSplitBars {nats(o[1])} {nat(o[1][o[2]])} {lit_bool(o[3])}"
+    raise AssertionError(k)
+
+
+def lit_ops(ops):
+    return "[" + "; ".join(lit_op(o) for o in ops) + "]"
+
+
+Op("history", lambda r: gen_history(r), lambda ops_: _exec(ops_), lambda ops_: f"show_trace {lit_ops(ops_)}",
+   lambda ops_: len(ops_) >= 4)
